@@ -1,0 +1,57 @@
+//go:build verif
+
+package control
+
+import "sync/atomic"
+
+// Verification hooks, compiled only with the "verif" build tag. They let an
+// in-package test harness (a) order goroutines at named yield points, (b) observe
+// the batches syncOwner would write to domain_routing_map, and (c) capture what
+// buildRoutingKernspace would write to the LPM and routing maps.
+
+const verifEnabled = true
+
+type verifHooks struct {
+	// Yield is called at named points of the UDP task pool.
+	Yield func(point string)
+	// DomainRoutingSync sees (owner, update keys, update values, delete keys).
+	DomainRoutingSync func(owner string, updKeys [][4]uint32, updVals []bpfDomainRouting, delKeys [][4]uint32)
+	// Kernspace receives the LPM results and the rewritten routing rules instead
+	// of the kernel maps.
+	Kernspace func(lpm []lpmMapResult, kernRules []bpfMatchSet, routingsLen uint32)
+}
+
+var verifHooksPtr atomic.Pointer[verifHooks]
+
+func verifSetHooks(h *verifHooks) { verifHooksPtr.Store(h) }
+
+func verifYield(point string) {
+	if h := verifHooksPtr.Load(); h != nil && h.Yield != nil {
+		h.Yield(point)
+	}
+}
+
+func verifObserveDomainRoutingSync(owner string, updKeys [][4]uint32, updVals []bpfDomainRouting, delKeys [][4]uint32) {
+	if h := verifHooksPtr.Load(); h != nil && h.DomainRoutingSync != nil {
+		h.DomainRoutingSync(owner, updKeys, updVals, delKeys)
+	}
+}
+
+func verifKernspaceSinkActive() bool {
+	h := verifHooksPtr.Load()
+	return h != nil && h.Kernspace != nil
+}
+
+func verifKernspaceSinkDeliver(lpm []lpmMapResult, kernRules []bpfMatchSet, routingsLen uint32) ([]uint32, error) {
+	h := verifHooksPtr.Load()
+	h.Kernspace(lpm, kernRules, routingsLen)
+	seen := make(map[uint32]struct{})
+	used := make([]uint32, 0, len(lpm))
+	for _, r := range lpm {
+		if _, ok := seen[r.lpmIndex]; !ok {
+			seen[r.lpmIndex] = struct{}{}
+			used = append(used, r.lpmIndex)
+		}
+	}
+	return used, nil
+}
